@@ -100,8 +100,9 @@ Qed.
 
 Lemma In_del x c l : In x (del c l) <-> In x l /\ x <> c.
 Proof.
-  rewrite <- !has_In. rewrite has_del. destruct (has x l), (x =? c) eqn:E; cbn; split; intros H; try discriminate;
-    try (destruct H as [H1 H2]; try discriminate; lia); try (split; [reflexivity|lia]); reflexivity.
+  rewrite <- !has_In. rewrite has_del. split.
+  - intros H. apply andb_true_iff in H as [H1 H2]. split; [exact H1|lia].
+  - intros [H1 H2]. apply andb_true_iff. split; [exact H1|lia].
 Qed.
 
 Lemma In_remove1_sub x c l : In x (remove1 c l) -> In x l.
